@@ -555,7 +555,12 @@ func (w *Writer) isVectorSplat(compose ir.ExprCompose) bool {
 	if int(compose.Type) >= len(w.module.Types) {
 		return false
 	}
-	if _, ok := w.module.Types[compose.Type].Inner.(ir.VectorType); !ok {
+	vec, ok := w.module.Types[compose.Type].Inner.(ir.VectorType)
+	if !ok {
+		return false
+	}
+	// vec4(v, v) with a vec2 v also repeats one handle, but is not a splat
+	if len(compose.Components) != int(vec.Size) {
 		return false
 	}
 	first := compose.Components[0]
